@@ -52,7 +52,7 @@ def gen_typed_case(rng):
 def gen_canon_case(rng):
     """string columns under a datatype whose lexical forms are canonicalised (xsd:integer / boolean / dateTime): the
     canonical form of a value must not depend on the other rows of the column"""
-    dt, vals = rng.choice([(mapcase.XSD + 'integer', ['0042', '1e3', '1500.0', '7', '12', '3.0', '+5', '10', '-0', '1E2', '3.7', '2.5']),
+    dt, vals = rng.choice([(mapcase.XSD + 'integer', ['0042', '1e3', '1500.0', '7', '12', '3.0', '+5', '10', '-0', '1E2', '3.7', '2.5', '9007199254740993', '-9007199254740993', '2.0']),      # integers beyond 2^53 next to decimal-pointed ones: a column-wide numeric dtype would round them together
                            (mapcase.XSD + 'boolean', ['true', 'TRUE', 'False', '1', '0', 'T']),
                            (mapcase.XSD + 'dateTime', ['2020-01-01 10:00:00', '2020-01-01T10:00:00', '2021-05-05 00:00:00.5', '2020-01-01'])])
     n = rng.choice([2, 3, 4, 5])
@@ -119,6 +119,14 @@ def run(ctx, res):
     known = set(ctx.known)
     cases = [gen_typed_case(ctx.rng) for _ in range(ctx.scale(60, 1500))] + [gen_canon_case(ctx.rng) for _ in range(ctx.scale(30, 600))] + [gen_collation_case(ctx.rng) for _ in range(ctx.scale(12, 200))] + [mapcase.gen_words_case(ctx.rng) for _ in range(ctx.scale(16, 200))]
     cases += [c for c in (mapcase.gen_core_case(ctx.rng, hard=ctx.rng.random() < 0.5, joins=False) for _ in range(ctx.scale(40, 1200))) if len(c['sources']) == 1]
+    # directed: xsd:integer over a string column holding integers beyond 2^53 and a decimal-pointed value in DIFFERENT rows (every split separates them)
+    for di in range(ctx.scale(4, 20)):
+        base = [['9007199254740993', '7'], ['2.0', '12'], ['-9007199254740993', '3.0'], ['18014398509481985', '2.0']][di % 2:][:3]
+        drows = [[str(i + 1)] + r for i, r in enumerate(base)]
+        dpoms = [{'preds': [tm('const', EX + 'p/p%d' % i)], 'objs': [{'m': m, 'lang': None, 'dt': tm('const', mapcase.XSD + 'integer'), 'joins': []}], 'graphs': []}
+                 for i, m in enumerate([tm('ref', 'c1'), tm('templ', '{c2}', 'iri', 'lit') if di % 4 >= 2 else tm('ref', 'c2')])]
+        cases.append({'cfg': {'nquads': False, 'mode': 'NO'}, 'sources': [{'key': 'S0', 'kind': ['csv', 'tsv', 'ssv'][di % 3], 'cols': ['id', 'c1', 'c2'], 'rows': drows}],
+                      'doc': [{'id': EX + 'tm/T', 'src': 'S0', 'nonasserted': False, 'subj': tm('templ', EX + 'r/{id}'), 'sjoins': [], 'classes': [], 'sgraphs': [], 'poms': dpoms}]})
     batch = family.Batch(ctx)
     whole = batch.run(cases)
     for case, rec in zip(cases, whole):
